@@ -349,6 +349,13 @@ int assemble_all(assemblyline_t al, const char *str, int *dest) {
   if (dest != NULL)
     *dest = 0;
   const char *tokenizer = str;
+  // a previous failed call leaves the offset at ASM_ERROR (-1): never use a
+  // negative offset as a write position
+  if (al->offset < 0) {
+    fprintf(stderr, "assembyline: invalid (negative) offset, use "
+                    "asm_set_offset() after a failed call\n");
+    return ASM_ERROR;
+  }
   unsigned int buf_pos = al->offset;
   // read str and assemble instruction line by line
   while (*tokenizer != '\0') {
